@@ -12,7 +12,9 @@ def main():
     ctx = Ctx('C03', 'translation_validation', variants=('plain',))
     b = ctx.b
     progs, disc = progset.pool(b, ctx, ctx.q(50, 400), ctx.q(50, 600), ctx.q(50, 400), 'C03')
-    LEVELS = ctx.q(['-Q0', '-Q1', '-Q3'], ['-Q0', '-Q1', '-Q2', '-Q3', '-Q5', '-Q9'])
+    # -Q9 is left to C02: it switches on the experimental passes whose hangs and behaviour changes are recorded there, and every
+    # route shares the same compile step, so comparing routes at -Q9 only repeats those findings
+    LEVELS = ctx.q(['-Q0', '-Q1', '-Q3'], ['-Q0', '-Q1', '-Q2', '-Q3', '-Q5'])
     ROUTES = ['interp-src', 'interp-ao', 'c']
     base = ctx.tmp('w')
     jobs = [(j, lv) for j in range(len(progs)) for lv in LEVELS]
@@ -24,7 +26,7 @@ def main():
             res[r] = progset.run_route(b, d, progs[j], r, [lv])
             shutil.rmtree(d, ignore_errors=True)
         return job, res
-    n = 0; tall = {}
+    n = 0; tall = {}; skipped = {}
     for (j, lv), res in pmap(work, jobs):
         pr = progs[j]
         outs = {r: (res[r][0], res[r][1]) for r in ROUTES}
@@ -35,6 +37,14 @@ def main():
         # A fault is a failure exit like any other for this property (agreement is what is demanded); what may not happen is
         # that the routes differ, that one hangs, or that one cannot be built while another runs.
         bad = False
+        # the compile step is common to the routes: a program that no route can compile (refused with errors, or the compiler
+        # does not terminate) is not a disagreement between routes; it is counted and left to C06 / C02
+        def refused(r):
+            o, xc, p = res[r]
+            return xc.startswith('compile-') or (r == 'interp-src' and p.rc != 0 and bool(re.search(rb'\[L\d+ C\d+\] #\d+ \((Fatal )?Error\)', p.out + p.err)))
+        if all('watchdog' in res[r][1] for r in ROUTES): skipped['compile-does-not-terminate'] = skipped.get('compile-does-not-terminate', 0) + 1; continue
+        if all(refused(r) for r in ROUTES):
+            skipped['refused-on-every-route'] = skipped.get('refused-on-every-route', 0) + 1; continue
         for r in ROUTES:
             o, xc, p = res[r]
             if 'watchdog' in xc:
@@ -55,6 +65,6 @@ def main():
         tall[kind + ':' + cls(ref[1])] = tall.get(kind + ':' + cls(ref[1]), 0) + 1
     ctx.sample({'program': progs[0]['name'], 'levels': LEVELS, 'routes': ROUTES})
     ctx.finish(n * len(ROUTES), len(progs), 'one evaluation = one program run on one route at one level; the three routes of a (program, level) are compared; distinct = programs',
-               extra={'programs': len(progs), 'levels': LEVELS, 'routes': ROUTES, 'outcome_classes': tall, 'discarded_by_discipline': disc, 'disagreements_checked': len(ctx.viol) + len(ctx.known_hit)}, min_eval=100)
+               extra={'programs': len(progs), 'levels': LEVELS, 'routes': ROUTES, 'outcome_classes': tall, 'skipped_program_levels': skipped, 'discarded_by_discipline': disc, 'disagreements_checked': len(ctx.viol) + len(ctx.known_hit)}, min_eval=100)
 
 main_guard(main)
